@@ -207,6 +207,7 @@ func checkC08(p *core.Program, r *core.Report) {
 		"Not decided: that the generator's tree and the circuit agree (C18/C05), provability of generated parameters."
 	r.Rule("O8.1", "preimage = fixed-width positional layout in the circuit's packing order (BE32 indices, 32-byte big integers)")
 	r.Rule("O8.2", "legacy Keccak-256; digest stored with SetBytes into the public-input parameter field")
+	r.Rule("O8.4", "imported verdicts: off-chain tree discipline (C18) and Poseidon shape (C05)")
 	r.Rule("O8.3", "gen-test-params: all fields set before the helper, none between helper and json.Marshal of the same struct")
 	r.Trusted = append(r.Trusted, "iden3 keccak256.Hash is Keccak-256", "math/big Bytes/FillBytes/SetBytes are big-endian", "encoding/binary.Write writes uint32 and []uint32 as 4 bytes each in the given order", "values are below 2^256 (the pad-if-short idiom does not truncate)")
 	r.NotDecided = append(r.NotDecided, "agreement of the generator's tree with the circuit (C18, C05)", "numerical equality of hashes")
@@ -312,6 +313,8 @@ func checkC08(p *core.Program, r *core.Report) {
 	r.Floor("layout parts", 7)
 	// O8.3
 	checkGenTestParams(p, r, helpers)
+	// O8.4: "parameters emitted by the generator are provable" also rests on the generator's tree and on Poseidon
+	importVerdicts(p, r, "O8.4", "generated roots and sibling paths come from the off-chain tree, hashed with Poseidon", "C18", "C05")
 }
 
 func isUint32(t types.Type) bool {
